@@ -4,7 +4,6 @@ EXTENDS MonCommon
 
 \* Once the server has sent a Close frame the stream is over as far as RFC 6455 is concerned: what a
 \* client does with frames that follow it is not demanded by C04 (either behaviour is accepted).
-UpToClose(fs) == LET c == FirstIdx(fs, LAMBDA f : f.op = OpClose) IN IF c = 0 THEN fs ELSE SubSeq(fs, 1, c)
 Applicable(tr) == Ref(UpToClose(DeliveredFrames(tr)), CfgOf(tr).compress).viol # 0
 
 Verdict(tr) ==
